@@ -268,6 +268,68 @@ static std::string read_file(const char *path)
     return o.str();
 }
 
+#ifdef VF_FUZZ
+// ---- libFuzzer front end: the input bytes are the plan tape itself (little-endian 32-bit words:
+// cfg_len() configuration words, then steps of step_len() words; what is missing reads as 0), so the
+// coverage-guided mutator works on exactly the choices the rapidcheck generator draws.  The oracle
+// is the harness's; a failing plan is written as <VF_OUT>.failing (vfplan text, the replay format)
+// before the process traps.
+static Harness *fz_h;
+static std::string fz_prefix;
+static Stats fz_st;
+
+static void fz_flush() { if (fz_h) write_stats(fz_prefix + ".stats.json", fz_h, fz_st); }
+static void fz_exit() { fz_flush(); if (fz_h) fz_h->teardown(); }
+
+extern "C" int LLVMFuzzerInitialize(int *, char ***)
+{
+    setvbuf(stdout, NULL, _IOLBF, 0);
+    fz_h = make_harness();
+    const char *out = getenv("VF_OUT");
+    fz_prefix = out ? out : (tmpdir() + "/fuzz");
+    fz_h->setup();
+    atexit(fz_exit);
+    return 0;
+}
+
+extern "C" int LLVMFuzzerTestOneInput(const uint8_t *data, size_t size)
+{
+    const size_t NC = fz_h->cfg_len(), K = fz_h->step_len(), MAXS = fz_h->max_steps();
+    auto word = [&](size_t idx) -> uint32_t {
+        uint32_t v = 0;
+        for (size_t b = 0; b < 4; b++) { size_t o = idx * 4 + b; if (o < size) v |= (uint32_t)data[o] << (8 * b); }
+        return v;
+    };
+    Plan p;
+    size_t nwords = (size + 3) / 4;
+    for (size_t i = 0; i < NC; i++) p.cfg.push_back(word(i));
+    for (size_t w = NC; w < nwords && p.steps.size() < MAXS; w += K) {
+        std::vector<uint32_t> st;
+        for (size_t j = 0; j < K; j++) st.push_back(word(w + j));
+        p.steps.push_back(st);
+    }
+    Case c;
+    Outcome o = fz_h->run(p, c);
+    fz_st.evaluations++;
+    for (auto &cl : c.classes) fz_st.classes[cl]++;
+    if (c.nontrivial) { fz_st.nontrivial++; if (fz_st.nt_hashes.size() < 200000) fz_st.nt_hashes.insert(plan_hash(p)); }
+    bool want = c.nontrivial && fz_st.samples.size() < 2;
+    for (auto &cl : c.classes) if (!fz_st.sampled_classes.count(cl) && fz_st.samples.size() < 6) want = true;
+    if (want) { for (auto &cl : c.classes) fz_st.sampled_classes.insert(cl); fz_st.samples.push_back({plan_to_text(p), c.trace.substr(0, 1500)}); }
+    if ((fz_st.evaluations & 1023) == 0) fz_flush();
+    if (!o.ok) {
+        fz_st.failed = true;
+        fz_st.fail_msg = o.msg;
+        fz_st.fail_trace = c.trace;
+        write_file(fz_prefix + ".failing", plan_to_text(p) + "# " + o.msg + "\n");
+        fz_flush();
+        printf("FAILED: %s\n", o.msg.c_str());
+        fflush(stdout);
+        __builtin_trap();
+    }
+    return 0;
+}
+#else
 int main(int argc, char **argv)
 {
     setvbuf(stdout, NULL, _IOLBF, 0);
@@ -395,3 +457,4 @@ int main(int argc, char **argv)
     if (!ok || st.failed) return 3;
     return 0;
 }
+#endif // VF_FUZZ
